@@ -8,6 +8,7 @@ import re
 from ..engine.mutate import Mutant, Variant, in_function, replace_once
 from ..engine.runner import Rule
 from ..engine.source import AnalysisError, Evaluator, FoldError
+from ..engine.sqlfront import all_where_clauses, split_conjuncts
 from .common import callee_name, calls_in, kwarg
 
 EXPLANATION = (
@@ -196,6 +197,18 @@ def rule_incremental(ctx):
     ctx.check("if deleted & updated: raise ConsistencyError" in _norm(ast.unparse(pn.node)), pn.fq, "overlapping change sets are rejected", "overlap accepted", "raises")
     rd = ctx.prog.func("nglob.NamedGlob.reduce")
     ctx.check("if len(path_set) == 0: del self._results[values]" in _norm(ast.unparse(rd.node)), rd.fq, "empty groups are removed (results compare equal to a fresh scan)", "empty groups linger", "deleted")
+    # a registration is one row: its match set is rewritten through the row id, nothing coarser (one step may
+    # register the same pattern text twice with different substitutions)
+    pm = ctx.prog.func("workflow.Workflow.persist_nglob_matches")
+    ups = [st_ for st_ in ctx.sql.stmts_in(pm.fq) if st_.kind == "UPDATE" and any(w[1] == "nglob" for w in st_.writes)]
+    if not ups:
+        raise AnalysisError("persist_nglob_matches no longer updates nglob")
+    pk = [c for c, info in ctx.cat.tables["nglob"].columns.items() if info.get("pk")]
+    for st_ in ups:
+        whs = all_where_clauses(st_.text)
+        conj = sorted(re.sub(r"\s*\.\s*", ".", _norm(c)) for c in split_conjuncts(whs[0])) if whs else []
+        ctx.check(len(conj) == 1 and re.fullmatch(rf"(nglob\.)?{pk[0]} = (\?|:\w+)", conj[0]) is not None, pm.fq, "the match set of a registration is rewritten by row id",
+                  f"the update selects rows by {conj}: every registration of that step with the same pattern text is overwritten with one registration's matches (and substitutions), so the recorded set of the other no longer equals what its matcher accepts", f"WHERE {pk[0]} = ?")
     rn = ctx.prog.func("startup.rescan_nglobs")
     src = _norm(ast.unparse(rn.node))
     ctx.check("new_ng.glob()" in src and "deleted = old_paths - new_paths" in src and "added = new_paths - old_paths" in src and "workflow.persist_nglob_matches(nglob_i, step, new_ng)" in src, rn.fq, "restart compares the recorded set with a fresh scan and persists the fresh one", "restart-side comparison changed", "fresh scan")
@@ -206,11 +219,12 @@ RULES = [
     Rule("R-C17-2", "the two neighbour mergers agree", rule_mergers, min_instances=24),
     Rule("R-C17-3", "one matcher per registration", rule_one_matcher, min_instances=11),
     Rule("R-C17-4", "scan flags", rule_scan_flags, min_instances=2),
-    Rule("R-C17-5", "incremental update order", rule_incremental, min_instances=5),
+    Rule("R-C17-5", "incremental update order", rule_incremental, min_instances=6),
 ]
 
 MUTANTS = [
-    Mutant("product-check-prefix-match", "workflow.py", in_function("Workflow._raise_if_glob_match", replace_once("re.compile(regex).fullmatch(path)", "re.compile(regex).match(path)")), ("R-C17-3",)),
+    Mutant("persist-by-pattern", "workflow.py", in_function("Workflow.persist_nglob_matches", lambda s: s.replace("        data = (json.dumps(json_converter.unstructure(ng)), nglob_i)\n        self.db.execute(\"UPDATE nglob SET data = ? WHERE i = ?\", data)\n", "        data = (json.dumps(json_converter.unstructure(ng)), step.i, ng.pattern)\n        self.db.execute(\"UPDATE nglob SET data = ? WHERE node = ? AND pattern = ?\", data)\n") if "WHERE i = ?" in s else None), ("R-C17-5",)),
+    Mutant("product-check-prefix-match", "workflow.py", in_function("Workflow._raise_if_glob_match", lambda s: s.replace("re.compile(regex).fullmatch(path)", "re.compile(regex).match(path)", 1) if "re.compile(regex).fullmatch(path)" in s else None), ("R-C17-3",)),
     Mutant("hidden-skipped", "nglob.py", in_function("NamedGlob.glob", replace_once("include_hidden=True", "include_hidden=False")), ("R-C17-4",)),
     Mutant("rescan-without-subs", "startup.py", replace_once("new_ng = NamedGlob(old_ng.pattern, old_ng.subs)", "new_ng = NamedGlob(old_ng.pattern)"), ("R-C17-3",)),
     Mutant("regex-without-subs", "step.py", in_function("Step.add_nglob", replace_once("convert_nglob_to_regex(ng.pattern, ng.subs)", "convert_nglob_to_regex(ng.pattern)")), ("R-C17-3",)),
